@@ -84,4 +84,192 @@ Section MC.
     intros l Hl. rewrite tbl_get_in by exact Hl. cbn [bind]. rewrite zlen_is_nil.
     destruct (negb (is_nil (f l))); reflexivity.
   Qed.
+  (* ---------------------------------------------------------------- *)
+  (* __init__                                                          *)
+
+  Lemma ffo_map {X Y} (g : X -> Y) (f : nat -> list X) :
+    find_first_object maxl extra (fun l => map g (f l)) = find_first_object maxl extra f.
+  Proof.
+    unfold find_first_object. generalize (seq 0 (maxl + extra)). intro ls.
+    induction ls as [|l r IH]; cbn [find]; [reflexivity|]. rewrite IH. now destruct (f l).
+  Qed.
+
+  (* a MarkovCracker object of this grammar: everything but the cursors and the
+     current GuessStructure is fixed by the constructor *)
+  Definition py_obj (s_ip s_len : nat) (T : Z) (cl ci : pycursor) (g : option pygs) : pymc :=
+    mk_pymc gram (Z.of_nat maxl) (ngramZ - 1)%Z (Z.of_nat s_ip) (Z.of_nat s_len) T cl ci g.
+
+  Theorem gen_mc_init fuel T : extra <= 1 ->
+    py_mc_init fuel gram T =
+    match mc_starts ipf lnf maxl extra with
+    | Some (a, b) => Ok (py_obj a b T None None None)
+    | None => Raise PyException
+    end.
+  Proof.
+    intro He. unfold py_mc_init, mc_starts.
+    cbn [set_m_grammar set_m_max_level set_m_length_ip m_grammar m_max_level pymc_blank g_ip g_ln g_max_level g_ngram gram].
+    rewrite gen_find_first_object by (try reflexivity; exact He).
+    destruct (find_first_object maxl extra ipf) as [a|]; cbn [bind]; [|reflexivity].
+    cbn [set_m_start_ip set_m_grammar set_m_max_level set_m_length_ip m_grammar m_max_level pymc_blank g_ip g_ln
+         g_max_level g_ngram gram].
+    rewrite gen_find_first_object by (try reflexivity; exact He). rewrite ffo_map.
+    destruct (find_first_object maxl extra lnf) as [b|]; cbn [bind]; reflexivity.
+  Qed.
+
+  (* ---------------------------------------------------------------- *)
+  (* the cursors                                                       *)
+
+  Variable s_ip s_len : nat.
+  Hypothesis Hs_ip : find_first_object maxl extra ipf = Some s_ip.
+  Hypothesis Hs_len : find_first_object maxl extra lnf = Some s_len.
+  Hypothesis extra_le : extra <= 1.
+
+  Definition cvalid {X} (tbl : nat -> list X) (cur : nat * nat) : Prop :=
+    fst cur <= maxl /\ snd cur < length (tbl (fst cur)).
+
+  (* the GuessStructure the constructor builds for two cursors *)
+  Definition gs_for (fg : bool) (lc ic : nat * nat) (T : Z) (pt : option pytree) : pygs :=
+    mk_pygs fg cp (Z.of_nat maxl) (nth (snd ic) (ipf (fst ic)) []) (zlen (nth (snd ic) (ipf (fst ic)) []))
+            (Z.of_nat (nth (snd lc) (lnf (fst lc)) 0)) (T - Z.of_nat (fst lc) - Z.of_nat (fst ic))%Z pt.
+
+  Notation obj := (py_obj s_ip s_len).
+
+  Lemma cur_get_fst a b : cur_get (Some (a, b)) 0%Z = Ok a.
+  Proof. reflexivity. Qed.
+  Lemma cur_get_snd a b : cur_get (Some (a, b)) 1%Z = Ok b.
+  Proof. reflexivity. Qed.
+  Lemma cur_get_cfst c : cur_get (Some (cursor_py c)) 0%Z = Ok (Z.of_nat (fst c)).
+  Proof. reflexivity. Qed.
+  Lemma cur_get_csnd c : cur_get (Some (cursor_py c)) 1%Z = Ok (Z.of_nat (snd c)).
+  Proof. reflexivity. Qed.
+
+  Lemma pyindex_nth {X} (l : list X) i d : i < length l -> pyindex l (Z.of_nat i) = Ok (nth i l d).
+  Proof.
+    intro H. destruct (nth_error l i) as [x|] eqn:E; [|apply nth_error_None in E; lia].
+    rewrite (pyindex_nat _ _ _ E). now rewrite (nth_error_nth _ _ d E).
+  Qed.
+
+  Lemma pyindex_nth_map (l : list nat) i : i < length l ->
+    pyindex (map Z.of_nat l) (Z.of_nat i) = Ok (Z.of_nat (nth i l 0)).
+  Proof.
+    intro H. rewrite (pyindex_nth _ _ 0%Z) by (now rewrite map_length).
+    change 0%Z with (Z.of_nat 0). now rewrite map_nth.
+  Qed.
+
+  (* the loop shared by _increase_ip_for_target and _increase_len_for_target *)
+  Lemma inc_loop {X} (tbl : nat -> list X) (bound : Z) (F : nat -> nat -> option bool * pymc) (m : pymc)
+        (cond : pymc * Z * Z -> res bool)
+        (body : pymc * Z * Z -> res (lctl (option bool * pymc) (pymc * Z * Z)))
+        (kont : pymc * Z * Z -> res (option bool * pymc)) :
+    (forall level index, cond (m, level, index) = Ok (level <=? Z.of_nat maxl)%Z) ->
+    (forall level index, level <= maxl ->
+       body (m, Z.of_nat level, Z.of_nat index) =
+       Ok (if Nat.ltb index (length (tbl level)) then Return (F level index)
+           else if (Z.of_nat maxl <? Z.of_nat (S level))%Z then Return (Some false, m)
+           else if (bound <? Z.of_nat (S level))%Z then Return (Some false, m)
+           else Continue (m, Z.of_nat (S level), 0%Z))) ->
+    forall fuel level index, level <= maxl -> fuel > maxl - level ->
+      mwhile fuel cond body (m, Z.of_nat level, Z.of_nat index) kont =
+      Ok (match inc_cursor tbl (maxl - level) level index bound with
+          | Some (l, i) => F l i
+          | None => (Some false, m)
+          end).
+  Proof.
+    intros Hcond Hbody. induction fuel as [|f IH]; intros level index Hl Hf; [lia|].
+    cbn [mwhile]. rewrite Hcond.
+    replace (Z.of_nat level <=? Z.of_nat maxl)%Z with true by (symmetry; apply Z.leb_le; lia).
+    rewrite Hbody by exact Hl.
+    destruct (maxl - level) as [|d'] eqn:Ed; cbn [inc_cursor];
+      destruct (Nat.ltb index (length (tbl level))); try reflexivity.
+    - replace (Z.of_nat maxl <? Z.of_nat (S level))%Z with true by (symmetry; apply Z.ltb_lt; lia). reflexivity.
+    - replace (Z.of_nat maxl <? Z.of_nat (S level))%Z with false by (symmetry; apply Z.ltb_ge; lia).
+      destruct (bound <? Z.of_nat (S level))%Z; [reflexivity|].
+      change 0%Z with (Z.of_nat 0). rewrite IH by lia. now replace (maxl - S level) with d' by lia.
+  Qed.
+
+  Ltac mcn :=
+    repeat first [rewrite cur_get_fst | rewrite cur_get_snd | rewrite cur_get_cfst | rewrite cur_get_csnd
+                 | rewrite tbl_get_in by lia
+                 | progress cbn [bind set_m_cur_ip set_m_cur_len set_m_cur_guess m_cur_ip m_cur_len m_cur_guess m_grammar
+                                 m_max_level m_target_level m_start_ip m_start_length py_obj g_ip g_ln g_cp gram cursor_py fst snd]].
+
+  Theorem gen_increase_ip fuel T lc ic g bound : cvalid lnf lc -> cvalid ipf ic -> fuel > maxl ->
+    py_mc_increase_ip_for_target fuel (obj T (Some (cursor_py lc)) (Some (cursor_py ic)) g) bound =
+    Ok (match increase maxl ipf ic bound with
+        | Some ic' => (Some true, obj T (Some (cursor_py lc)) (Some (cursor_py ic')) (Some (gs_for true lc ic' T (Some []))))
+        | None => (Some false, obj T (Some (cursor_py lc)) (Some (cursor_py ic)) g)
+        end).
+  Proof.
+    intros [Hl1 Hl2] [Hi1 Hi2] Hf. unfold py_mc_increase_ip_for_target. mcn.
+    replace (Z.of_nat (snd ic) + 1)%Z with (Z.of_nat (S (snd ic))) by lia.
+    match goal with |- context[mwhile ?fu ?cond ?body ?st ?kont] =>
+      pose proof (inc_loop ipf bound
+                    (fun l i => (Some true, obj T (Some (cursor_py lc)) (Some (cursor_py (l, i)))
+                                               (Some (gs_for true lc (l, i) T (Some [])))))
+                    (obj T (Some (cursor_py lc)) (Some (cursor_py ic)) g) cond body kont) as HL end.
+    feed HL. { intros level index. reflexivity. }
+    feed HL.
+    { clear HL. intros level index Hlv. cbv beta iota. mcn.
+      unfold zlen. replace (Z.of_nat index <? Z.of_nat (length (ipf level)))%Z with (Nat.ltb index (length (ipf level)))
+        by (destruct (Nat.ltb index (length (ipf level))) eqn:E;
+            [apply Nat.ltb_lt in E; symmetry; apply Z.ltb_lt; lia | apply Nat.ltb_ge in E; symmetry; apply Z.ltb_ge; lia]).
+      destruct (Nat.ltb index (length (ipf level))) eqn:E.
+      - apply Nat.ltb_lt in E. mcn. rewrite (pyindex_nth (ipf level) index [] E). mcn.
+        rewrite pyindex_nth_map by exact Hl2. mcn. reflexivity.
+      - replace (Z.of_nat level + 1)%Z with (Z.of_nat (S level)) by lia.
+        destruct (Z.of_nat maxl <? Z.of_nat (S level))%Z; [reflexivity|].
+        destruct (bound <? Z.of_nat (S level))%Z; reflexivity. }
+    unfold increase. replace (Nat.ltb maxl (fst ic)) with false by (symmetry; apply Nat.ltb_ge; lia).
+    rewrite HL by lia.
+    destruct (inc_cursor ipf (maxl - fst ic) (fst ic) (S (snd ic)) bound) as [[l i]|]; reflexivity.
+  Qed.
+
+  Lemma pyindex_zero {X} (l : list X) d : 0 < length l -> pyindex l 0%Z = Ok (nth 0 l d).
+  Proof. exact (pyindex_nth l 0 d). Qed.
+
+  Lemma s_ip_valid : cvalid ipf (s_ip, 0).
+  Proof.
+    destruct (ffo_spec maxl extra extra_le ipf s_ip Hs_ip) as (H1 & H2 & _).
+    split; cbn [fst snd]; [exact H1 | destruct (ipf s_ip); [congruence | cbn; lia]].
+  Qed.
+
+  Lemma s_len_valid : cvalid lnf (s_len, 0).
+  Proof.
+    destruct (ffo_spec maxl extra extra_le lnf s_len Hs_len) as (H1 & H2 & _).
+    split; cbn [fst snd]; [exact H1 | destruct (lnf s_len); [congruence | cbn; lia]].
+  Qed.
+
+  Theorem gen_increase_len fuel T lc ic g : cvalid lnf lc -> fuel > maxl ->
+    py_mc_increase_len_for_target fuel (obj T (Some (cursor_py lc)) ic g) =
+    Ok (match increase maxl lnf lc T with
+        | Some lc' => (Some true, obj T (Some (cursor_py lc')) (Some (cursor_py (s_ip, 0)))
+                                      (Some (gs_for true lc' (s_ip, 0) T (Some []))))
+        | None => (Some false, obj T (Some (cursor_py lc)) ic g)
+        end).
+  Proof.
+    intros [Hl1 Hl2] Hf. destruct s_ip_valid as [Hs1 Hs2]. cbn [fst snd] in Hs1, Hs2.
+    unfold py_mc_increase_len_for_target. mcn.
+    replace (Z.of_nat (snd lc) + 1)%Z with (Z.of_nat (S (snd lc))) by lia.
+    match goal with |- context[mwhile ?fu ?cond ?body ?st ?kont] =>
+      pose proof (inc_loop lnf T
+                    (fun l i => (Some true, obj T (Some (cursor_py (l, i))) (Some (cursor_py (s_ip, 0)))
+                                               (Some (gs_for true (l, i) (s_ip, 0) T (Some [])))))
+                    (obj T (Some (cursor_py lc)) ic g) cond body kont) as HL end.
+    feed HL. { intros level index. reflexivity. }
+    feed HL.
+    { clear HL. intros level index Hlv. cbv beta iota. mcn.
+      unfold zlen. rewrite map_length.
+      replace (Z.of_nat index <? Z.of_nat (length (lnf level)))%Z with (Nat.ltb index (length (lnf level)))
+        by (destruct (Nat.ltb index (length (lnf level))) eqn:E;
+            [apply Nat.ltb_lt in E; symmetry; apply Z.ltb_lt; lia | apply Nat.ltb_ge in E; symmetry; apply Z.ltb_ge; lia]).
+      destruct (Nat.ltb index (length (lnf level))) eqn:E.
+      - apply Nat.ltb_lt in E. mcn. rewrite (pyindex_zero (ipf s_ip) [] Hs2). mcn.
+        rewrite pyindex_nth_map by exact E. mcn. reflexivity.
+      - replace (Z.of_nat level + 1)%Z with (Z.of_nat (S level)) by lia.
+        destruct (Z.of_nat maxl <? Z.of_nat (S level))%Z; [reflexivity|].
+        destruct (T <? Z.of_nat (S level))%Z; reflexivity. }
+    unfold increase. replace (Nat.ltb maxl (fst lc)) with false by (symmetry; apply Nat.ltb_ge; lia).
+    rewrite HL by lia.
+    destruct (inc_cursor lnf (maxl - fst lc) (fst lc) (S (snd lc)) T) as [[l i]|]; reflexivity.
+  Qed.
 End MC.
